@@ -48,6 +48,11 @@ CHECKS = {
          "spec/Framing.tla enumerates every partition of an N-row sequence into frames (N = 5..8 quick, ..11 thorough; with empty frames); every partition of every TLC-generated row sequence is re-framed by /verif's codec, every second frame carrying metadata, "
          "and parsed flat and grouped by both integrations against the TLC-computed denotation (one sink per frame, content per frame, metadata visible). Grouped serialization of sink sequences through one shared stream: one frame per non-empty sink, judged by TLC.",
          "TLC exhaustive enumeration of frame partitions (spec/Framing.tla) replayed into the real parsers; TLC trace judging of grouped serializer output"),
+ "C13": ("model_checking", "6 C13",
+         "spec/PyHeader.tla states the reader contract for headers (forbidden physical/logical pairs, name table >= 8, tables <= 4096, version <= 2, strict flat/grouped gates, non-strict independence of the logical type); TLC enumerates the complete lattice "
+         "pt x 8 logical types x table sizes {7,8,4096,4097} x versions x {flat,grouped} x strict with the expected outcome of each point; each point becomes bytes (by /verif's codec, also for pairs pyjelly's writer refuses) and goes through both integrations' parsers. "
+         "The writer lattice is replayed and the header, read by /verif's codec and by get_options_and_frames, compared with the configuration (version 2 iff nsdecl, Unicode names).",
+         "TLC exhaustive enumeration of the header lattice (spec/PyHeader.tla) with expected outcomes, replayed into writer and parsers"),
  "C14": ("model_checking", "6 C14",
          "TLC closes PyWriter.Namespace o JellyReader.RdNamespace on slices where declarations evict prefixes (prefix table 1-2); simulated behaviours with declarations are replayed through Stream.namespace_declaration and as bindings on "
          "GenericStatementSink / rdflib Graph / Dataset through stream_frames and Graph.serialize (TRIPLES, QUADS, GRAPHS); wire judged by TLC; order and content of what the reader receives, on/off equivalence of the statements, absence when off, and regeneration are compared.",
